@@ -122,7 +122,8 @@ bool solver_t::done(solver_state_t& state, const bool iter_ok, const bool conver
     if (const auto step_ok = iter_ok && state.valid(); converged || !step_ok)
     {
         // either converged or failed
-        state.status(converged ? solver_status::converged : solver_status::failed);
+        // NB: a non-finite state can pass the (relative) convergence test, but it is never a solution!
+        state.status((converged && state.valid()) ? solver_status::converged : solver_status::failed);
         logger.info("[solver-", type_id(), "]: ", state, ".\n");
         return true;
     }
